@@ -85,6 +85,24 @@ impl Oracle for C05 {
             Op::ClearPending { g } => {
                 self.expect.remove(&(node, *g));
             }
+            // the one automatic case: an admin commits a member's own request to leave. What the
+            // commit may do is remove members who asked to leave, nothing else.
+            Op::Deliver { .. } if rec.class == "autocommit" => {
+                if let Some(c) = rec.created.first().copied() {
+                    if let Some(pe) = w.ev(c) {
+                        let g = pe.g;
+                        // a member's own request to leave: the honest call, or a Remove proposal a
+                        // member built for its own leaf
+                        let leavers: BTreeSet<String> = w
+                            .events
+                            .iter()
+                            .filter(|e| e.g == g && ((e.kind == EvKind::Proposal && e.desc == "leave") || (e.desc.starts_with("crafted proposal prop_remove") && e.desc.ends_with(&format!("victim=n{}", e.creator)))))
+                            .map(|e| w.nodes[e.creator].pubkey().to_hex())
+                            .collect();
+                        self.expect.insert((node, g), ("autoleave".into(), leavers, c));
+                    }
+                }
+            }
             _ => {}
         }
         let applied_own: Option<usize> = match &rec.step.op {
@@ -107,7 +125,16 @@ impl Oracle for C05 {
                         "remove" => (BTreeSet::new(), who.clone()),
                         _ => (BTreeSet::new(), BTreeSet::new()),
                     };
-                    if added != want_add || removed != want_rm {
+                    if kind == "autoleave" {
+                        w.probe("automatic_leave_commit_applied_by_its_author");
+                        if !added.is_empty() || !removed.is_subset(&who) {
+                            self.interesting = true;
+                            w.probe("foreign_proposal_pending_when_leave_was_auto_committed");
+                            // (repaired by 67d2fbd: the automatic commit takes foreign proposals out of the queue)
+                            let known: Option<String> = None;
+                            viols.push(("automatic-leave-commit-did-more-than-the-leave", format!("n{node} g{g}: the commit it created automatically for a leave request added {:?} and removed {:?}; members who asked to leave: {:?}", added.iter().map(|x| &x[..8]).collect::<Vec<_>>(), removed.iter().map(|x| &x[..8]).collect::<Vec<_>>(), who.iter().map(|x| &x[..8]).collect::<Vec<_>>()), known));
+                        }
+                    } else if added != want_add || removed != want_rm {
                         let had_foreign = !pre.pending_proposals.is_empty();
                         if had_foreign {
                             w.probe("foreign_proposal_pending_when_admin_operated");
